@@ -139,6 +139,10 @@ pub fn norm_panic(msg: &str) -> String {
             _ => l.to_string(),
         }
     }
+    let msg = match msg.find(" [frames ") {
+        Some(i) => &msg[..i],
+        None => msg,
+    };
     let (head, frame) = match msg.find(" [first rten frame ") {
         Some(i) => (&msg[..i], Some(msg[i + 18..].trim().trim_end_matches(']').to_string())),
         None => (msg, None),
@@ -178,6 +182,11 @@ pub fn norm_panic(msg: &str) -> String {
     sig
 }
 
+/// Requests above this are refused while a load call is in flight (the C38
+/// engine uses 4 GiB; here up to 16 shards load concurrently and a hostile
+/// model can make the optimiser really fill what it is given).
+pub const LOAD_REFUSE_ABOVE: usize = (1 << 30) + (1 << 16);
+
 fn justified_alloc(len: usize) -> u64 {
     16 * len as u64 + (1 << 20)
 }
@@ -210,7 +219,7 @@ pub fn judge(bytes: &[u8], oc: &Outcome) -> Vec<Finding> {
     }
     if let Some(c) = &oc.crash {
         let group = ex::entry_group(c.entry);
-        let first_line = c.stderr.lines().find(|l| l.contains("ERROR") || l.contains("memory allocation") || l.contains("overflowed") || l.contains("panicked")).unwrap_or("").to_string();
+        let first_line = c.stderr.lines().find(|l| l.contains("ERROR") || l.contains("C05-ALLOC-REFUSED") || l.contains("memory allocation") || l.contains("overflowed") || l.contains("panicked")).unwrap_or("").to_string();
         let detail = format!(
             "child ended with {} while {} was in stage {}; largest allocation request {} bytes; input {} bytes; stderr: {}",
             c.class,
@@ -222,7 +231,7 @@ pub fn judge(bytes: &[u8], oc: &Outcome) -> Vec<Finding> {
         );
         let counts = match c.stage {
             ex::ST_LOAD => match c.class.as_str() {
-                "abort:alloc" => c.max_alloc > justified_alloc(bytes.len()),
+                a if a.starts_with("abort:alloc") => c.max_alloc > justified_alloc(bytes.len()),
                 // SIGKILL comes from outside (OOM killer, operator); timeouts
                 // are confirmed separately.
                 "signal:9" | "timeout" => false,
@@ -277,6 +286,7 @@ impl Ctx {
             let env = &self.env;
             let batch = self.region.run(|| {
                 ex::install_child_panic_hook();
+                ex::install_child_alloc_hook();
                 for (i, c) in slice.iter().enumerate() {
                     region.begin_case(i as u32, alarm_s);
                     let xo = ExecOpts { alarm_s, run_alarm_s: (alarm_s / 4).max(3), const_outputs: if c.run_model { 8 } else { 2 }, run_model: c.run_model, demonstrate };
@@ -301,7 +311,19 @@ impl Ctx {
                 break;
             }
             // The case in flight is the one after the completed ones.
-            let class = c05run::crash_class(&batch.end, &batch.stderr);
+            let mut class = c05run::crash_class(&batch.end, &batch.stderr);
+            if class == "abort:alloc" {
+                // Who asked? (written by the child's allocation hook)
+                if let Some(l) = batch.stderr.lines().rev().find(|l| l.starts_with("C05-ALLOC-REFUSED")) {
+                    if let Some(fr) = l.split("rten frames: ").nth(1) {
+                        // Skip the generic allocation layers.
+                        let first = fr.split(" <- ").map(|f| f.trim()).find(|f| !f.starts_with("rten-tensor/") && !f.starts_with("rten-base/") && *f != "src/buffer_pool.rs").unwrap_or("");
+                        if !first.is_empty() {
+                            class = format!("abort:alloc <- {}", first);
+                        }
+                    }
+                }
+            }
             self.child_deaths.set(self.child_deaths.get() + 1);
             outcomes.push(Outcome {
                 outs: Vec::new(),
@@ -323,6 +345,7 @@ impl Ctx {
         let alarm_s = self.alarm_s;
         let batch = self.region.run(|| {
             ex::install_child_panic_hook();
+                ex::install_child_alloc_hook();
             let t0 = std::time::Instant::now();
             let mut execs = 0u32;
             let xo = ExecOpts { alarm_s, run_alarm_s: 3, const_outputs: 2, run_model: false, demonstrate: false };
@@ -749,10 +772,18 @@ impl<'a> Runner<'a> {
                 (Some(c2), c1) if c2.class == c1.class && c2.stage == c1.stage => {
                     self.rep.count("child_death_confirmed_alone");
                     if c1.class == "timeout" && c1.stage == ex::ST_LOAD {
-                        // Confirmed non-termination within 4x the alarm.
-                        let mut cc = c2.clone();
-                        cc.class = "no_return_within_bound".into();
-                        oc.crash = Some(cc);
+                        if c2.max_alloc.max(c1.max_alloc) > justified_alloc(case.bytes.len()) {
+                            // The model made the loader work on gigabytes
+                            // (constant propagation): slow, but no evidence
+                            // of non-termination. Resource use is not bounded
+                            // by the property.
+                            self.rep.count("slow_load_with_large_allocation(not judged)");
+                        } else {
+                            // Confirmed: no return within 4x the alarm, alone.
+                            let mut cc = c2.clone();
+                            cc.class = "no_return_within_bound".into();
+                            oc.crash = Some(cc);
+                        }
                     }
                 }
                 _ => {
@@ -1065,7 +1096,7 @@ pub fn run(args: &Args) {
     if !unattributed.is_empty() {
         rep.note("memory_errors_while_running_models_whose_constants_are_all_well_formed(not_a_C05_question)", Json::Array(unattributed));
     }
-    rep.note("bounds", json!({"alloc_abort_is_a_violation_above": "16*len+1MiB", "allocator_refuses_above_bytes": allocmon::REFUSE_ABOVE, "per_case_alarm_s": ctx.alarm_s, "timeout_confirmation_alarm_s": ctx.alarm_s * 4, "batch_size": batch_size}));
+    rep.note("bounds", json!({"alloc_abort_is_a_violation_above": "16*len+1MiB", "allocator_refuses_above_bytes": LOAD_REFUSE_ABOVE, "per_case_alarm_s": ctx.alarm_s, "timeout_confirmation_alarm_s": ctx.alarm_s * 4, "batch_size": batch_size}));
     if let Some(e) = pack_problem {
         if rep.inconclusive.is_none() {
             rep.inconclusive = Some(format!("generator pack unreadable: {}", e));
